@@ -65,7 +65,9 @@ BINOPS = {
     ">": operator.gt, ">=": operator.ge,
 }
 UNOPS = {"neg": operator.neg, "pos": operator.pos, "inv": operator.inv, "abs": abs, "round": round}
-PIPES = {"double": lambda v: v * 2, "tostr": lambda v: str(v), "plus1": lambda v: v + 1}
+PIPES = {"double": lambda v: v * 2, "tostr": lambda v: str(v), "plus1": lambda v: v + 1,
+         # results that compare equal but differ in type (True == 1 == 1.0): what is computed from them must follow all the same
+         "one3": lambda v: True if v < 0 else (1 if v % 2 == 0 else 1.0)}
 # pipe functions taking more than the piped value: (function, how the extra argument is passed)
 PIPES_X = {"scale": (lambda v, by=1: v * by, "by"), "rev": (lambda v, reverse=False: -v if reverse else v, "reverse"),
            "addpos": (lambda v, k: v + k, None)}
@@ -192,7 +194,7 @@ def _dag(draw):
                 nodes.append((["where", draw(st.sampled_from(of("bool", "small", "int"))), ["c", 7], ["n", q_]], "int"))
         elif k == "pipe":
             a = draw(st.sampled_from(ints))
-            f = draw(st.sampled_from(["double", "plus1", "tostr", "scale", "rev", "addpos"]))
+            f = draw(st.sampled_from(["double", "plus1", "tostr", "scale", "rev", "addpos", "one3", "one3"]))
             nodes.append((["pipe", a, f] + ([draw(st.integers(0, 3))] if f in PIPES_X else []), "str" if f == "tostr" else "int"))
         elif k == "mat":
             a = draw(st.sampled_from(ints))
@@ -357,6 +359,26 @@ def enumerate_cases(tier):
                        "steps": [["read", 1]]}
         yield {"dag": [["root", root], ["bin", "*", ["c", 2], ["n", 0]]], "inputs": [1, 2, "ab", [1, 2], 1, 2, 3], "watch": [],
                "steps": [["read", 1]]}
+    # equal-but-different-type table: an intermediate node moves between True, 1 and 1.0 (which compare equal) after it and
+    # its consumers were read; the consumers (str, + 1, * 2, a list index, or_ / and_) are read again
+    for root in (0, 4):
+        for v1 in (-1, 2, 3):
+            for v2 in (-1, 2, 3):
+                if v1 == v2:
+                    continue
+                for tail in (None, ["pipe", 1, "tostr"], ["pipe", 1, "plus1"], ["bin", "*", ["n", 1], ["c", 2]],
+                             ["getitem", 2, ["n", 1]], ["or_", 1, 3], ["and_", 3, 1]):
+                    dag = [["root", root], ["pipe", 0, "one3"]]
+                    if tail is not None and tail[0] == "getitem":
+                        dag = dag + [["root", 3], ["getitem", 2, ["n", 1]]]
+                    elif tail is not None and tail[0] in ("or_", "and_"):
+                        dag = dag + [["root", 1], ["bin", "!=", ["n", 2], ["c", 0]], tail]
+                    elif tail is not None:
+                        dag = dag + [tail]
+                    last = len(dag) - 1
+                    yield {"dag": dag, "inputs": [v1, 0, "a", [7, 8, 9], v1, 2, 3], "watch": [last],
+                           "steps": [["read", last], ["read", 1], ["set", root, v2], ["read", last], ["read", 1],
+                                     ["set", root, v1], ["set", root, v2], ["read", last]]}
     # slice table: each part of a slice (start / stop / step) reactive in turn, the other parts absent or constant;
     # read, change the input behind the reactive part, read again
     for pos in range(3):
